@@ -251,7 +251,6 @@ def make_hooks(env, name):
 
 def replay(case):
     if case['kind'] == 'observed':
-        from ..desc import tup
         return judge_observed(tup(case['s']))
     if case['kind'] == 'keydoor_resets':
         return judge_keydoor_resets(tuple(case['shape']), list(case['script']))
